@@ -199,6 +199,7 @@ Fixpoint build (c : con) (obj : val) (cx : ctx) (p : path) (o : ostream) {struct
       | Some z =>
           let* n := eval_int cx len in
           if (n <=? 0)%Z then raise EInteger p else
+          if (65536 <? n)%Z then unsupported else
           match integer2bytes z (Z.to_nat n) signed with
           | None => raise EInteger p
           | Some d => let d := if swapped then swapbytes d else d in
@@ -211,6 +212,7 @@ Fixpoint build (c : con) (obj : val) (cx : ctx) (p : path) (o : ostream) {struct
       | Some z =>
           let* n := eval_int cx len in
           if (n <=? 0)%Z then raise EInteger p else
+          if (65536 <? n)%Z then unsupported else
           match integer2bits z (Z.to_nat n) signed with
           | None => raise EInteger p
           | Some d => match (if swapped then swapbytesinbits d else Some d) with
@@ -238,6 +240,7 @@ Fixpoint build (c : con) (obj : val) (cx : ctx) (p : path) (o : ostream) {struct
       | Some z =>
           (* integer2bytes(obj, length): ValueError is not caught *)
           if (n <? 1)%Z then Err EValue None else
+          if (65536 <? n)%Z then unsupported else
           match integer2bytes z (Z.to_nat n) false with
           | Some d => let* o' := owrite o d n p in Ok (VBytes d, o')
           | None => Err EValue None
@@ -413,12 +416,14 @@ Fixpoint build (c : con) (obj : val) (cx : ctx) (p : path) (o : ostream) {struct
       let* (r, o1) := build c' obj cx p o in
       let pad := (n - (otell o1 - otell o))%Z in
       if (pad <? 0)%Z then raise EPadding p else
+      if (alloc_bound <? pad)%Z then unsupported else
       let* o2 := owrite o1 (repeat pat (Z.to_nat pad)) pad p in Ok (r, o2)
   | CAligned m c' pat =>
       let* n := eval_int cx m in
       if (n <? 2)%Z then raise EPadding p else
       let* (r, o1) := build c' obj cx p o in
       let pad := ((- (otell o1 - otell o)) mod n)%Z in
+      if (alloc_bound <? pad)%Z then unsupported else
       let* o2 := owrite o1 (repeat pat (Z.to_nat pad)) pad p in Ok (r, o2)
   | CPointer off c' =>
       let* a := eval_int cx off in
@@ -472,6 +477,7 @@ Fixpoint build (c : con) (obj : val) (cx : ctx) (p : path) (o : ostream) {struct
       let data := odata o2 in
       let pad := (n - Z.of_nat (length data))%Z in
       if (pad <? 0)%Z then raise EPadding p else
+      if (alloc_bound <? pad)%Z then unsupported else
       let* o1 := owrite o data (Z.of_nat (length data)) p in
       let* o' := owrite o1 (zeros (Z.to_nat pad)) pad p in Ok (r, o')
   | CNullTerminated c' term _ _ _ =>
@@ -487,7 +493,7 @@ Fixpoint build (c : con) (obj : val) (cx : ctx) (p : path) (o : ostream) {struct
       end
   | CRestreamed c' _ _ ef eu _ =>
       if (eu <? 1)%Z then unsupported else
-      let* (_, o2) := build c' obj cx p (mkO [] 0 false) in
+      let* (_, o2) := build c' obj cx p (mkO [] 0%N false) in
       let d := odata o2 in
       let units := chunksn (Z.to_nat eu) (length d) d in
       if negb (Nat.eqb (Nat.modulo (length d) (Z.to_nat eu)) 0) then
@@ -513,6 +519,7 @@ Fixpoint build (c : con) (obj : val) (cx : ctx) (p : path) (o : ostream) {struct
       let* a := eval_int cx amount in
       let* g := eval_int cx group in
       if (g <? 1)%Z then raise ERotation p else
+      if (alloc_bound <? g)%Z then unsupported else
       let am := Z.to_N ((- a) mod (g * 8)) in
       let* (r, o2) := build c' obj cx p ostream_new in
       match rotate_left am (Z.to_nat g) (odata o2) with
